@@ -130,6 +130,26 @@ CLAIMED = {
             'per-entry theorems plus key injectivity (no separate theorem).',
             'Trusted: Lean kernel; recorder model tied by differential execution; known finding K4 (arguments stored by '
             'reference) excluded: values are immutable in the model.', 'DESIGN.md 6/C03'),
+    'C17': ('Lean 4 theorems: the finally-block of the recording scope computes exactly keep = forced or rate >= 1 or draw <= '
+            'rate and consumes one draw iff that last test is reached; discard wins; a class ignoring forcing is never forced '
+            '(invariant over all programs); content independence; the S3 size-based rule is the same function; tied to /repo by '
+            'the exhaustive decision table (incl. draws equal to the rate) and seeded histories on the recorder\'s own Random(seed)',
+            'Kernel-checked for every program and recorder state: skipped classes never touch the cassette; discarded => abort; '
+            'otherwise save iff forced (and not ignored) or rate >= 1 or the next draw <= rate; exactly one draw iff needed; '
+            'forcing never leaks into the next run. The long-run-fraction sentence (law of large numbers) is NOT formalised: '
+            'partial; the tie compares kept decisions with the seeded stream draw by draw.',
+            'Trusted: Lean kernel; recorder model tied by differential execution; random.Random is a stream of exact rational '
+            'draws; floats compared as exact dyadic rationals.', 'DESIGN.md 6/C17'),
+    'C18': ('Lean 4 theorems: the saved recording carries class, exception flag of this run, clock difference, incomplete = no '
+            'operation output, extractor result or nothing; incomplete iff interrupted via an invariant over all programs (no '
+            'output under the operation alias before the implicit output) under the alias well-formedness hypothesis; tied to '
+            '/repo by random programs terminating in every mode at every step with all extractor behaviours and a scripted clock',
+            'Kernel-checked for every program, fault placement and termination point: metadata of a saved recording equals the '
+            'documented function of the run; returned / ordinary exception => never incomplete, interrupt-style termination => '
+            'always incomplete. Wall-time consistency is partial (the clock is a parameter); default lookup is C10.',
+            'Trusted: Lean kernel; recorder model tied by differential execution; known finding K5 (alias containing the reserved '
+            'operation alias) is excluded by hypothesis and exhibited as a counterexample theorem and corpus witness.',
+            'DESIGN.md 6/C18'),
 }
 
 NOT_YET = 'check not built yet in this round (work in progress; see DESIGN.md section 6 for the planned proof and tie)'
